@@ -94,7 +94,8 @@ def run_one(m, checks):
         res["status"] = "survived"
         res["checks"] = {}
         for c in checks:
-            rc, out = sh("PQVERIF_LITE=1 ./check %s quick 2>&1 | tail -25" % c, VERIF, timeout=2400, env=dict(ENV, PQVERIF_LITE="1"))
+            rc, out = sh("./check %s quick 2>&1" % c, VERIF, timeout=2400, env=dict(ENV, PQVERIF_LITE="1"))
+            out = "\n".join(out.splitlines()[-25:])
             verdict = {0: "silent", 1: "FIRED", 2: "inconclusive"}.get(rc, "rc%d" % rc)
             res["checks"][c] = verdict
             if rc == 1:
